@@ -3,6 +3,7 @@ import TeosVerif.Props.C10
 #print axioms Teos.C10.late_add_takes_triggered_path
 #print axioms Teos.C10.breachStep_handles
 #print axioms Teos.C10.early_add_found_by_block
+#print axioms Teos.C10.accepted_then_block_finds_it
 #print axioms Teos.C10.second_identical_add_charges_nothing
 #print axioms Teos.C10.slot_updates_commute
 #print axioms Teos.C10.resubmission_charged_once
